@@ -121,7 +121,7 @@ def tlc(module_path, cfg=None, workers=1, env=None, xmx="4g", timeout=3600, extr
         r.violated = "postcondition"
     elif re.search(r"Error: Action property (\S+) is violated", r.out):
         r.violated = re.search(r"Error: Action property (\S+) is violated", r.out).group(1)
-    elif "Temporal properties were violated" in r.out:
+    elif "Temporal properties were violated" in r.out or re.search(r"Error: Temporal property \S+ was violated", r.out):
         r.violated = "temporal"
     if not r.ok and not r.violated:
         idx = r.out.find("Error:")
